@@ -78,7 +78,9 @@ def w_sched(job):
     am = job.get('am', True)
     sched.CTL.reset()
     fp0 = lib_globals_fingerprint()
-    base = run_ep(ep, L, R, 1, am=am, cand=cand)
+    op = job.get('op')
+    thr = job.get('t')
+    base = run_ep(ep, L, R, 1, am=am, cand=cand, op=op, t=thr)
     bm = multiset(base, drop_id=not (ep.startswith('candset') or ep == 'matcher'))
     bo = ordered_rows(base)
     must = must_pairs(ep, L, R) if ep in UNSTABLE else None
@@ -90,14 +92,14 @@ def w_sched(job):
     scheds = set()
     for nj in job['n_jobs']:
         sched.CTL.reset()
-        out0 = run_ep(ep, L, R, nj, am=am, cand=cand)
+        out0 = run_ep(ep, L, R, nj, am=am, cand=cand, op=op, t=thr)
         calls += 1
         k = sched.CTL.last_ntasks
         orders = [None] if not k or k == 1 else sched.perm_orders(k, job.get('bound', 2))
         for order in orders:
             sched.CTL.reset()
             sched.CTL.order = order
-            out = out0 if order is None else run_ep(ep, L, R, nj, am=am, cand=cand)
+            out = out0 if order is None else run_ep(ep, L, R, nj, am=am, cand=cand, op=op, t=thr)
             calls += 1
             scheds.add((nj, order))
             if k and k > 1:
@@ -130,9 +132,10 @@ def w_sched(job):
             if probs:
                 nviol += 1
                 if len(viol) < MAXV:
-                    viol.append({'key': 'C10|sched|%s|fam%d|nj%s|%s' % (ep, job['family'], nj, order),
-                                 'what': 'C10: %s on family %d (left=%r right=%r) with n_jobs=%s, %s tasks executed '
-                                         'in order %s: %s' % (ep, job['family'], lv, rv, nj, k, order, '; '.join(probs)),
+                    viol.append({'key': 'C10|sched|%s|%s|fam%d|nj%s|%s' % (ep, op, job['family'], nj, order),
+                                 'what': 'C10: %s (comp_op %s) on family %d (left=%r right=%r) with n_jobs=%s, %s tasks '
+                                         'executed in order %s: %s' % (ep, op or 'default', job['family'], lv, rv, nj, k,
+                                                                       order, '; '.join(probs)),
                                  'detail': {'schedule': {'n_jobs': nj, 'tasks': k, 'order': order}}})
     return {'cases': len(scheds), 'calls': calls, 'nontrivial': nontrivial, 'outcomes': outs,
             'extra': {'schedules': len(scheds), 'violations': nviol, 'module_state_changes': globals_changed},
@@ -333,6 +336,15 @@ def layers(tier):
                 njs = sorted(set(njs + [n - 1, n, n + 1]))
             for c in range(0, len(njs), 4):
                 jobs.append({'ep': ep, 'family': fi, 'n_jobs': njs[c:c + 4], 'bound': 1 if quick else 2})
+    # non-default comparison operators through the parallel paths (family 0 and 1)
+    for ep in JOIN_EPS:
+        ops = (('<', 2), ('=', 1)) if ep.endswith('EDIT_DISTANCE') else \
+            ((('>', 1), ('=', 2)) if ep.endswith('OVERLAP') else (('>', 0.5), ('=', 0.5), ('=', 1.0)))
+        for (op_, t_) in ops:
+            for fi in (0, 1):
+                jobs.append({'ep': ep, 'family': fi, 'n_jobs': [2, 3, 4, -1], 'bound': 1, 'op': op_, 't': t_})
+    for (op_, t_) in (('>', 1), ('=', 1)):
+        jobs.append({'ep': 'ftables:Overlap', 'family': 0, 'n_jobs': [2, 3, 5], 'bound': 1, 'op': op_, 't': t_})
     Ls.append(Layer('schedules', 'checks.c10:w_sched', jobs,
                     '17 entry points x 6 table families (rows 0..6 with empties, missing values, duplicates) x '
                     'every n_jobs in {1..rows+2, -1, -2, -(cpus+3), 0} x every task execution order (all k! for '
